@@ -1,9 +1,894 @@
 package main
 
-import "fmt"
+import (
+	"bufio"
+	"bytes"
+	"encoding/json"
+	"fmt"
+	"os"
+	"os/exec"
+	"path/filepath"
+	"sort"
+	"strings"
+	"sync"
+	"sync/atomic"
+	"time"
+)
 
-func mainC12(e *env) {
-	fmt.Println("C12 not built yet")
+// The orchestrator treats a C12 history as generic JSON so that it never has
+// to mirror the harness's types: the minimiser only deletes list elements and
+// flips a few named fields.
+
+type h12 = map[string]any
+
+type res12 struct {
+	Seed      uint64            `json:"seed"`
+	Verdict   string            `json:"verdict"`
+	Detail    string            `json:"detail"`
+	OpIndex   int               `json:"op_index"`
+	Source    string            `json:"source"`
+	NOps      int               `json:"nops"`
+	Effective int               `json:"effective"`
+	Shape     uint64            `json:"shape"`
+	OpKinds   map[string]uint64 `json:"op_kinds"`
+	Fired     map[string]uint64 `json:"fired"`
+	Probes    map[string]uint64 `json:"probes"`
+	OutHash   uint64            `json:"out_hash"`
+	InitKind  string            `json:"init_kind"`
+	FaultFree bool              `json:"fault_free"`
 }
 
-func warmC12(e *env) {}
+type line12 struct {
+	Ev      string          `json:"ev"`
+	I       uint64          `json:"i"`
+	Seed    uint64          `json:"seed"`
+	Profile string          `json:"profile"`
+	Res     *res12          `json:"res"`
+	Hist    json.RawMessage `json:"hist"`
+}
+
+type fail12 struct {
+	I       uint64
+	Seed    uint64
+	Profile string
+	Res     *res12
+	Hist    h12
+}
+
+type c12 struct {
+	e      *env
+	worker string
+	buildS float64
+}
+
+func (x *c12) build() {
+	e := x.e
+	t0 := time.Now()
+	mkScratch(e)
+	h := filepath.Join(e.scratch, "h12")
+	if err := copyTree(filepath.Join(verifDir, "harness", "c12"), h); err != nil {
+		trouble(e, "copying harness: %v", err)
+	}
+	gomod := "module c12harness\n\ngo 1.24.0\n\nrequire " + hclMod + " v2.0.0\n\nreplace " + hclMod + " => " + repoDir + "\n"
+	os.WriteFile(filepath.Join(h, "go.mod"), []byte(gomod), 0o644)
+	sum, _ := os.ReadFile(filepath.Join(repoDir, "go.sum"))
+	os.WriteFile(filepath.Join(h, "go.sum"), sum, 0o644)
+	x.worker = filepath.Join(e.scratch, "c12worker")
+	out, err := run(h, goEnv(), goBin, "build", "-trimpath", "-o", x.worker, ".")
+	if err != nil {
+		trouble(e, "building the history simulator against /repo failed (a tree that does not compile is not a violation): %v\n%s", err, out)
+	}
+	x.buildS = time.Since(t0).Seconds()
+}
+
+func (x *c12) spawn(timeout time.Duration, gogc string, args ...string) ([]line12, int, string, bool) {
+	cmd := exec.Command(x.worker, args...)
+	cmd.Env = append(os.Environ(), "GOMAXPROCS=1", "GOGC="+gogc, "GOTRACEBACK=single")
+	var so, se bytes.Buffer
+	cmd.Stdout = &so
+	cmd.Stderr = &se
+	if err := cmd.Start(); err != nil {
+		return nil, -1, err.Error(), false
+	}
+	done := make(chan error, 1)
+	go func() { done <- cmd.Wait() }()
+	exit := 0
+	timed := false
+	select {
+	case err := <-done:
+		if err != nil {
+			if ee, ok := err.(*exec.ExitError); ok {
+				exit = ee.ExitCode()
+			} else {
+				exit = -1
+			}
+		}
+	case <-time.After(timeout):
+		cmd.Process.Kill()
+		<-done
+		timed = true
+		exit = -2
+	}
+	var lines []line12
+	sc := bufio.NewScanner(&so)
+	sc.Buffer(make([]byte, 1<<20), 1<<28)
+	for sc.Scan() {
+		var l line12
+		if json.Unmarshal(sc.Bytes(), &l) == nil && l.Ev != "" {
+			lines = append(lines, l)
+		}
+	}
+	return lines, exit, se.String(), timed
+}
+
+func (x *c12) runHist(h h12) (*res12, string) {
+	f, err := os.CreateTemp(x.e.scratch, "hist-*.json")
+	if err != nil {
+		return nil, err.Error()
+	}
+	b, _ := json.Marshal(h)
+	f.Write(b)
+	f.Close()
+	defer os.Remove(f.Name())
+	lines, exit, se, timed := x.spawn(60*time.Second, "100", "-replay", f.Name())
+	if timed {
+		// a history that does not terminate is itself a finding of the "hang" class
+		return &res12{Verdict: "hang", Detail: "executing the history did not finish within 60 s"}, ""
+	}
+	for _, l := range lines {
+		if l.Ev == "end" && l.Res != nil {
+			if l.Res.Verdict == "internal" {
+				return nil, "worker: " + l.Res.Detail
+			}
+			return l.Res, ""
+		}
+	}
+	if strings.Contains(se, "stack overflow") || strings.Contains(se, "out of memory") {
+		return &res12{Verdict: "crash", Detail: "the process died: " + head(se, 600)}, ""
+	}
+	return nil, fmt.Sprintf("worker exited with status %d without a result: %s", exit, tail(se, 2000))
+}
+
+type agg12 struct {
+	mu        sync.Mutex
+	runs      uint64
+	ops       uint64
+	effective uint64
+	shapes    map[uint64]struct{}
+	shapesNT  map[uint64]struct{}
+	opKinds   map[string]uint64
+	fired     map[string]uint64
+	probes    map[string]uint64
+	byInit    map[string]uint64
+	byProfile map[string]uint64
+	faultRuns uint64
+	failures  []*fail12
+	internal  uint64
+	troubleS  string
+	outHashes map[uint64]uint64 // run index -> hash (determinism)
+}
+
+func newAgg12() *agg12 {
+	return &agg12{shapes: map[uint64]struct{}{}, shapesNT: map[uint64]struct{}{}, opKinds: map[string]uint64{}, fired: map[string]uint64{},
+		probes: map[string]uint64{}, byInit: map[string]uint64{}, byProfile: map[string]uint64{}, outHashes: map[uint64]uint64{}}
+}
+
+func (x *c12) sweep(a *agg12, base uint64, first uint64, deadline time.Time, workers int, chunk uint64, maxRuns uint64, record bool) {
+	next := first
+	var stop int32
+	var wg sync.WaitGroup
+	for w := 0; w < workers; w++ {
+		wg.Add(1)
+		go func() {
+			defer wg.Done()
+			for atomic.LoadInt32(&stop) == 0 && time.Now().Before(deadline) {
+				from := atomic.AddUint64(&next, chunk) - chunk
+				if maxRuns > 0 && from >= first+maxRuns {
+					return
+				}
+				to := from + chunk
+				if maxRuns > 0 && to > first+maxRuns {
+					to = first + maxRuns
+				}
+				lines, exit, se, timed := x.spawn(300*time.Second, "off", "-base", fmt.Sprint(base), "-from", fmt.Sprint(from), "-to", fmt.Sprint(to), "-profile", "mixed")
+				if timed || exit != 0 {
+					// find the in-flight run
+					var infl *line12
+					for i := range lines {
+						if lines[i].Ev == "start" {
+							infl = &lines[i]
+						} else if lines[i].Ev == "end" {
+							infl = nil
+						}
+					}
+					a.mu.Lock()
+					if infl != nil && (timed || strings.Contains(se, "stack overflow")) {
+						a.troubleS = fmt.Sprintf("history %d (seed %d) did not finish (timed out=%v): %s", infl.I, infl.Seed, timed, tail(se, 800))
+					} else {
+						a.troubleS = fmt.Sprintf("worker exited with status %d: %s", exit, tail(se, 2000))
+					}
+					a.mu.Unlock()
+					atomic.StoreInt32(&stop, 1)
+					return
+				}
+				a.mu.Lock()
+				for i := range lines {
+					l := &lines[i]
+					if l.Ev != "end" || l.Res == nil {
+						continue
+					}
+					r := l.Res
+					if r.Verdict == "internal" {
+						a.internal++
+						if a.troubleS == "" && a.internal > 0 {
+							a.troubleS = "the generator produced an invalid initial file: " + head(r.Detail, 1500)
+						}
+						continue
+					}
+					a.runs++
+					a.ops += uint64(r.NOps)
+					a.effective += uint64(r.Effective)
+					a.shapes[r.Shape] = struct{}{}
+					if r.Effective >= 3 {
+						a.shapesNT[r.Shape] = struct{}{}
+					}
+					a.byInit[r.InitKind]++
+					a.byProfile[l.Profile]++
+					if !r.FaultFree {
+						a.faultRuns++
+					}
+					for k, v := range r.OpKinds {
+						a.opKinds[k] += v
+					}
+					for k, v := range r.Fired {
+						a.fired[k] += v
+					}
+					for k, v := range r.Probes {
+						a.probes[k] += v
+					}
+					if record {
+						a.outHashes[l.I] = r.OutHash ^ strHash64(r.Verdict)
+					}
+					if r.Verdict != "ok" {
+						var h h12
+						json.Unmarshal(l.Hist, &h)
+						a.failures = append(a.failures, &fail12{I: l.I, Seed: l.Seed, Profile: l.Profile, Res: r, Hist: h})
+					}
+				}
+				a.mu.Unlock()
+			}
+		}()
+	}
+	wg.Wait()
+}
+
+func strHash64(s string) uint64 {
+	h := uint64(0xcbf29ce484222325)
+	for i := 0; i < len(s); i++ {
+		h = (h ^ uint64(s[i])) * 0x100000001b3
+	}
+	return h
+}
+
+// ---- minimisation (delta debugging over the explicit history) ----
+
+func cloneH(h h12) h12 {
+	b, _ := json.Marshal(h)
+	var n h12
+	d := json.NewDecoder(bytes.NewReader(b))
+	d.UseNumber()
+	d.Decode(&n)
+	return n
+}
+
+func opsOf(h h12) []any {
+	o, _ := h["ops"].([]any)
+	return o
+}
+
+func sig12(r *res12) string {
+	d := r.Detail
+	// strip positions and concrete names
+	if i := strings.Index(d, "\n"); i > 0 {
+		d = d[:i]
+	}
+	cut := func(s, from string) string {
+		if i := strings.Index(s, from); i >= 0 {
+			return s[:i]
+		}
+		return s
+	}
+	switch r.Verdict {
+	case "invalid_output":
+		parts := strings.Split(d, "|")
+		if len(parts) > 1 {
+			d = parts[1]
+		}
+	case "accessor_mismatch", "model_mismatch", "token_loss", "value_mismatch":
+		if i := strings.Index(d, ": "); i >= 0 {
+			d = d[i+2:]
+		}
+		d = cut(d, "\"")
+		d = cut(d, "(")
+		d = strings.TrimRight(d, "0123456789 ")
+	case "panic":
+		d = cut(d, ":")
+	}
+	return r.Verdict + "|" + d
+}
+
+func (x *c12) minimise(f *fail12, budget time.Duration) (h12, *res12, int) {
+	deadline := time.Now().Add(budget)
+	want := f.Res.Verdict
+	cur := cloneH(f.Hist)
+	best := f.Res
+	tried := 0
+	try := func(c h12) bool {
+		if time.Now().After(deadline) {
+			return false
+		}
+		tried++
+		r, tr := x.runHist(c)
+		if tr != "" || r == nil || r.Verdict != want {
+			return false
+		}
+		cur, best = c, r
+		return true
+	}
+	// 1. truncate after the failing op
+	if best.OpIndex >= 0 && best.OpIndex+1 < len(opsOf(cur)) {
+		c := cloneH(cur)
+		c["ops"] = opsOf(c)[:best.OpIndex+1]
+		try(c)
+	}
+	for pass := 0; pass < 4 && time.Now().Before(deadline); pass++ {
+		progress := false
+		// 2. ddmin over ops
+		for size := (len(opsOf(cur)) + 1) / 2; size >= 1; size /= 2 {
+			for i := 0; i+size <= len(opsOf(cur)); {
+				c := cloneH(cur)
+				ops := opsOf(c)
+				c["ops"] = append(append([]any{}, ops[:i]...), ops[i+size:]...)
+				if try(c) {
+					progress = true
+				} else {
+					i += size
+				}
+			}
+		}
+		// 3. pre-population of fresh blocks, paths
+		for i := range opsOf(cur) {
+			op, _ := opsOf(cur)[i].(map[string]any)
+			if op == nil {
+				continue
+			}
+			for _, key := range []string{"pre", "path", "labels", "trav"} {
+				if l, ok := op[key].([]any); ok && len(l) > 0 {
+					for k := len(l) - 1; k >= 0; k-- {
+						c := cloneH(cur)
+						o2 := opsOf(c)[i].(map[string]any)
+						l2 := o2[key].([]any)
+						o2[key] = append(append([]any{}, l2[:k]...), l2[k+1:]...)
+						if try(c) {
+							progress = true
+						}
+					}
+				}
+			}
+		}
+		// 4. initial file: flags, then items (recursively)
+		if init, ok := cur["init"].(map[string]any); ok {
+			for _, flag := range []string{"crlf", "no_final_nl", "tail_comment"} {
+				if v, ok := init[flag]; ok && v != nil && v != false && v != "" {
+					c := cloneH(cur)
+					delete(c["init"].(map[string]any), flag)
+					if try(c) {
+						progress = true
+					}
+				}
+			}
+			if x.shrinkBody(&cur, []string{"init", "body"}, try) {
+				progress = true
+			}
+		}
+		if !progress {
+			break
+		}
+	}
+	return cur, best, tried
+}
+
+// bodyAt walks to the body object at the given key path.
+func bodyAt(h h12, path []string) map[string]any {
+	var m map[string]any = h
+	for _, k := range path {
+		if strings.HasPrefix(k, "#") {
+			var idx int
+			fmt.Sscanf(k, "#%d", &idx)
+			items, _ := m["items"].([]any)
+			if idx >= len(items) {
+				return nil
+			}
+			it, _ := items[idx].(map[string]any)
+			if it == nil {
+				return nil
+			}
+			b, _ := it["body"].(map[string]any)
+			if b == nil {
+				return nil
+			}
+			m = b
+			continue
+		}
+		n, _ := m[k].(map[string]any)
+		if n == nil {
+			return nil
+		}
+		m = n
+	}
+	return m
+}
+
+func (x *c12) shrinkBody(cur *h12, path []string, try func(h12) bool) bool {
+	progress := false
+	b := bodyAt(*cur, path)
+	if b == nil {
+		return false
+	}
+	items, _ := b["items"].([]any)
+	for i := len(items) - 1; i >= 0; i-- {
+		c := cloneH(*cur)
+		cb := bodyAt(c, path)
+		ci := cb["items"].([]any)
+		cb["items"] = append(append([]any{}, ci[:i]...), ci[i+1:]...)
+		if try(c) {
+			progress = true
+		}
+	}
+	// decorations of the surviving items
+	b = bodyAt(*cur, path)
+	items, _ = b["items"].([]any)
+	for i := range items {
+		it, _ := items[i].(map[string]any)
+		for _, key := range []string{"blank", "free", "lead", "inline", "line_cmt", "pre_label", "labels"} {
+			if v, ok := it[key]; ok && v != nil {
+				c := cloneH(*cur)
+				delete(bodyAt(c, path)["items"].([]any)[i].(map[string]any), key)
+				if try(c) {
+					progress = true
+				}
+			}
+		}
+	}
+	b = bodyAt(*cur, path)
+	items, _ = b["items"].([]any)
+	for i := range items {
+		it, _ := items[i].(map[string]any)
+		if _, ok := it["body"].(map[string]any); ok {
+			if x.shrinkBody(cur, append(append([]string{}, path...), fmt.Sprintf("#%d", i)), try) {
+				progress = true
+			}
+		}
+	}
+	return progress
+}
+
+// ---- known-finding attribution (interventional) ----
+
+func mapStrings(v any, f func(string) string) any {
+	switch t := v.(type) {
+	case string:
+		return f(t)
+	case []any:
+		for i := range t {
+			t[i] = mapStrings(t[i], f)
+		}
+		return t
+	}
+	return v
+}
+
+func walkItems(body map[string]any, f func(item map[string]any)) {
+	items, _ := body["items"].([]any)
+	for _, it := range items {
+		m, _ := it.(map[string]any)
+		if m == nil {
+			continue
+		}
+		f(m)
+		if b, ok := m["body"].(map[string]any); ok {
+			walkItems(b, f)
+		}
+	}
+}
+
+func walkOps(ops []any, f func(op map[string]any)) {
+	for _, o := range ops {
+		m, _ := o.(map[string]any)
+		if m == nil {
+			continue
+		}
+		f(m)
+		if pre, ok := m["pre"].([]any); ok {
+			walkOps(pre, f)
+		}
+	}
+}
+
+func intervene12(h h12, iv string) h12 {
+	n := cloneH(h)
+	changed := false
+	init, _ := n["init"].(map[string]any)
+	switch iv {
+	case "expand-one-line-blocks":
+		if init != nil {
+			if b, ok := init["body"].(map[string]any); ok {
+				walkItems(b, func(it map[string]any) {
+					if v, _ := it["one_line"].(bool); v {
+						delete(it, "one_line")
+						changed = true
+					}
+				})
+			}
+		}
+	case "plain-template-escapes-in-labels":
+		fix := func(s string) string {
+			r := strings.ReplaceAll(strings.ReplaceAll(s, "$${", "$-{"), "%%{", "%-{")
+			if r != s {
+				changed = true
+			}
+			return r
+		}
+		if init != nil {
+			if b, ok := init["body"].(map[string]any); ok {
+				walkItems(b, func(it map[string]any) {
+					if ls, ok := it["labels"].([]any); ok {
+						for _, l := range ls {
+							if lm, ok := l.(map[string]any); ok {
+								if t, ok := lm["text"].(string); ok {
+									lm["text"] = fix(t)
+								}
+							}
+						}
+					}
+				})
+			}
+		}
+		walkOps(opsOf(n), func(op map[string]any) {
+			if ls, ok := op["labels"]; ok {
+				op["labels"] = mapStrings(ls, fix)
+			}
+		})
+	default:
+		return nil
+	}
+	if !changed {
+		return nil
+	}
+	return n
+}
+
+// attribute decides whether a failing history is explained by recorded
+// findings: every applicable intervention is applied (a history can contain
+// the ingredients of several findings, and neutralising one may merely expose
+// the next), the neutralised history must then pass, and at least one of the
+// neutralised findings must name the class of the observed failure.
+func (x *c12) attribute(h h12, r *res12, fs []finding) *finding {
+	n := h
+	var applied []*finding
+	for i := range fs {
+		k := &fs[i]
+		if k.Kind != "known" {
+			continue
+		}
+		if n2 := intervene12(n, k.Intervention); n2 != nil {
+			n = n2
+			applied = append(applied, k)
+		}
+	}
+	var match *finding
+	for _, k := range applied {
+		if k.Class == r.Verdict {
+			match = k
+			break
+		}
+	}
+	if match == nil {
+		return nil
+	}
+	nr, tr := x.runHist(n)
+	if tr == "" && nr != nil && nr.Verdict == "ok" {
+		return match
+	}
+	return nil
+}
+
+func describe12(h h12, r *res12) string {
+	var b strings.Builder
+	fmt.Fprintf(&b, "  class: %s at op %d\n  %s\n", r.Verdict, r.OpIndex, indent(head(r.Detail, 2500), "  "))
+	if init, ok := h["init"].(map[string]any); ok {
+		ib, _ := json.Marshal(init)
+		fmt.Fprintf(&b, "  initial file: %s\n", head(string(ib), 1500))
+	}
+	for i, o := range opsOf(h) {
+		ob, _ := json.Marshal(o)
+		fmt.Fprintf(&b, "  op %d: %s\n", i, head(string(ob), 400))
+	}
+	if r.Source != "" {
+		fmt.Fprintf(&b, "  last serialised file:\n%s\n", indent(head(r.Source, 2000), "    | "))
+	}
+	return b.String()
+}
+
+func (x *c12) writeReplay(h h12, r *res12, name string) string {
+	c := cloneH(h)
+	c["expect"] = map[string]any{"verdict": r.Verdict, "detail": head(r.Detail, 3000), "op_index": r.OpIndex}
+	c["tree"] = treeHash()
+	dir := filepath.Join(verifDir, "replays")
+	os.MkdirAll(dir, 0o755)
+	p := filepath.Join(dir, name)
+	b, _ := json.MarshalIndent(c, "", " ")
+	os.WriteFile(p, append(b, '\n'), 0o644)
+	return p
+}
+
+func warmC12(e *env) {
+	x := &c12{e: e}
+	x.build()
+	cleanup(e)
+}
+
+func mainC12(e *env) {
+	x := &c12{e: e}
+	x.build()
+	defer cleanup(e)
+
+	if e.replay != "" {
+		b, err := os.ReadFile(e.replay)
+		if err != nil {
+			trouble(e, "cannot read replay file: %v", err)
+		}
+		var h h12
+		d := json.NewDecoder(bytes.NewReader(b))
+		d.UseNumber()
+		if err := d.Decode(&h); err != nil {
+			trouble(e, "cannot parse replay file: %v", err)
+		}
+		exp, _ := h["expect"].(map[string]any)
+		delete(h, "expect")
+		r, tr := x.runHist(h)
+		if tr != "" {
+			trouble(e, "%s", tr)
+		}
+		if r.Verdict == "ok" {
+			fmt.Printf("REPLAY property=C12 file=%s: no violation on this tree (verdict ok)\n", e.replay)
+			if exp != nil {
+				fmt.Printf("  (the file records verdict %v on tree %v)\n", exp["verdict"], h["tree"])
+			}
+			cleanup(e)
+			os.Exit(0)
+		}
+		fmt.Printf("REPLAY property=C12 file=%s reproduces:\n%s", e.replay, describe12(h, r))
+		fmt.Printf("VIOLATION property=C12 replay=%s\n", e.replay)
+		cleanup(e)
+		os.Exit(1)
+	}
+
+	secs := 30
+	detRuns := uint64(2000)
+	minBudget := 40 * time.Second
+	maxMin := 6
+	if e.tier == "thorough" {
+		secs = 900
+		detRuns = 40000
+		minBudget = 120 * time.Second
+		maxMin = 12
+	}
+	if e.seconds > 0 {
+		secs = e.seconds
+	}
+	fmt.Printf("C12 %s: tree %s, batch seed %d, build %.1fs\n", e.tier, treeHash(), e.seed, x.buildS)
+
+	// determinism: the same run indices in separate processes (different GC settings) give identical outcomes
+	d1, d2 := newAgg12(), newAgg12()
+	detBase := e.seed ^ 0x5151515151
+	x.sweep(d1, detBase, 0, time.Now().Add(10*time.Minute), 16, 125, detRuns, true)
+	x.sweepGC(d2, detBase, detRuns)
+	if d1.troubleS != "" || d2.troubleS != "" {
+		trouble(e, "determinism self-test: %s %s", d1.troubleS, d2.troubleS)
+	}
+	div := 0
+	for i, hsh := range d1.outHashes {
+		if h2, ok := d2.outHashes[i]; ok && h2 != hsh {
+			div++
+			if div < 5 {
+				fmt.Printf("  nondeterminism: history %d gives different outcomes in two processes\n", i)
+			}
+		}
+	}
+	if div > 0 {
+		trouble(e, "the history simulator is not deterministic (%d of %d histories differ between processes)", div, len(d1.outHashes))
+	}
+	fmt.Printf("  determinism: %d histories executed twice in separate processes (GOGC off / GOGC=1) with identical outcomes\n", len(d1.outHashes))
+
+	a := newAgg12()
+	t1 := time.Now()
+	x.sweep(a, e.seed, 0, time.Now().Add(time.Duration(secs)*time.Second), 16, 250, 0, false)
+	sweepS := time.Since(t1).Seconds()
+	if a.troubleS != "" {
+		trouble(e, "%s", a.troubleS)
+	}
+	fmt.Printf("  sweep: %d histories in %.1fs (%.0f/hour), %d ops (%d effective edits), %d distinct op-kind shapes with >=3 effective edits, %d failing histories\n",
+		a.runs, sweepS, float64(a.runs)/sweepS*3600, a.ops, a.effective, len(a.shapesNT), len(a.failures))
+
+	// failures: group by signature, minimise one per group, attribute
+	known := loadFindings("C12")
+	sort.Slice(a.failures, func(i, j int) bool {
+		if len(opsOf(a.failures[i].Hist)) != len(opsOf(a.failures[j].Hist)) {
+			return len(opsOf(a.failures[i].Hist)) < len(opsOf(a.failures[j].Hist))
+		}
+		return a.failures[i].I < a.failures[j].I
+	})
+	groups := map[string][]*fail12{}
+	var order []string
+	for _, f := range a.failures {
+		s := sig12(f.Res)
+		if _, ok := groups[s]; !ok {
+			order = append(order, s)
+		}
+		groups[s] = append(groups[s], f)
+	}
+	violations := 0
+	knownHit := map[string]int{}
+	knownPrinted := map[string]bool{}
+	var vioSamples []any
+	minimised := 0
+	reported := map[string]bool{}
+	for _, s := range order {
+		g := groups[s]
+		f := g[0] // shortest history of the group
+		if k := x.attribute(f.Hist, f.Res, known); k != nil {
+			knownHit[k.ID] += len(g)
+			if !knownPrinted[k.ID] {
+				knownPrinted[k.ID] = true
+				fmt.Printf("KNOWN-FINDING: property=C12 id=%s %s\n", k.ID, k.Text)
+			}
+			continue
+		}
+		r0, tr := x.runHist(f.Hist)
+		if tr != "" {
+			trouble(e, "confirming history %d: %s", f.I, tr)
+		}
+		if r0.Verdict != f.Res.Verdict {
+			trouble(e, "history %d (seed %d) failed with %s in the sweep but %s in a fresh process: nondeterministic", f.I, f.Seed, f.Res.Verdict, r0.Verdict)
+		}
+		min, mr, tried := f.Hist, f.Res, 0
+		if minimised < maxMin {
+			minimised++
+			min, mr, tried = x.minimise(f, minBudget)
+			if k := x.attribute(min, mr, known); k != nil {
+				knownHit[k.ID] += len(g)
+				if !knownPrinted[k.ID] {
+					knownPrinted[k.ID] = true
+					fmt.Printf("KNOWN-FINDING: property=C12 id=%s %s\n", k.ID, k.Text)
+				}
+				continue
+			}
+		}
+		ms := sig12(mr)
+		if reported[ms] {
+			continue
+		}
+		reported[ms] = true
+		violations++
+		p := x.writeReplay(min, mr, fmt.Sprintf("C12-%s-%d.json", mr.Verdict, f.Seed))
+		fmt.Printf("violation (history %d, seed %d; %d histories in this group; minimised with %d candidate runs to %d ops):\n%s", f.I, f.Seed, len(g), tried, len(opsOf(min)), describe12(min, mr))
+		fmt.Printf("VIOLATION property=C12 replay=%s\n", p)
+		vioSamples = append(vioSamples, map[string]any{"class": mr.Verdict, "seed": f.Seed, "replay": p})
+	}
+
+	hours := sweepS / 3600
+	ev := &evidence{Level: "exploration", Violations: violations}
+	ev.Coverage = map[string]any{
+		"evaluations":         a.runs,
+		"distinct_nontrivial": len(a.shapesNT),
+		"rule": "one evaluation = one simulated history (initial file + up to 40 writer-API operations with concrete arguments, mirrored in a list/map reference model, accessors compared after every operation, serialised file re-parsed and compared at every save point); " +
+			"distinct_nontrivial = number of distinct sequences of (operation kind, addressing mode) among histories with at least 3 effective edits (edits that changed the model)",
+		"samples":                     x.samples(2),
+		"histories_per_hour":          float64(a.runs) / hours,
+		"seeds":                       a.runs,
+		"simulated_time_steps":        a.ops,
+		"effective_edits":             a.effective,
+		"op_kinds":                    a.opKinds,
+		"initial_file_kinds":          a.byInit,
+		"runs_by_profile":             a.byProfile,
+		"histories_with_env_events":   a.faultRuns,
+		"faults_fired":                a.fired,
+		"probes":                      a.probes,
+		"distinct_shapes_all":         len(a.shapes),
+		"determinism_histories_twice": len(d1.outHashes),
+		"failing_histories":           len(a.failures),
+		"failure_groups":              len(order),
+		"known_findings_hit":          knownHit,
+		"violations_reported":         vioSamples,
+		"build_seconds":               x.buildS,
+		"tree":                        treeHash(),
+		"components_real":             []string{"hclwrite (all of it, unmodified, built from /repo's working tree)", "hclsyntax scanner/parser/evaluator as reader of the saved file", "go-cty"},
+		"components_simulated_or_stub": []string{"the editing application (operation histories)", "the writer passed to WriteTo (fails after k bytes / short write)", "restart: the tree is discarded and re-loaded from the saved bytes"},
+		"components_absent":           []string{"no concurrency, clock or network in hclwrite: one client, the explored space is operation order x arguments x fault placement"},
+	}
+	ev.Assumptions = []string{
+		"hclsyntax is trusted as the reader of the serialised file",
+		"the ~200-line reference model and the token attribution (lead/line/free comments) encode the documented hclwrite semantics",
+		"sampling, not proof",
+	}
+	writeEvidence(e, ev)
+	cleanup(e)
+	if violations > 0 {
+		os.Exit(1)
+	}
+	fmt.Printf("C12 %s: property held on everything explored (%d histories", e.tier, a.runs)
+	if len(knownHit) > 0 {
+		fmt.Printf("; known findings hit: %v", knownHit)
+	}
+	fmt.Println(")")
+	os.Exit(0)
+}
+
+// sweepGC repeats the determinism range with an aggressive collector (different allocation addresses).
+func (x *c12) sweepGC(a *agg12, base uint64, n uint64) {
+	var wg sync.WaitGroup
+	chunk := uint64(125)
+	var mu sync.Mutex
+	for from := uint64(0); from < n; from += chunk * 16 {
+		for w := uint64(0); w < 16; w++ {
+			f := from + w*chunk
+			if f >= n {
+				break
+			}
+			t := f + chunk
+			if t > n {
+				t = n
+			}
+			wg.Add(1)
+			go func(f, t uint64) {
+				defer wg.Done()
+				lines, exit, se, timed := x.spawn(300*time.Second, "1", "-base", fmt.Sprint(base), "-from", fmt.Sprint(f), "-to", fmt.Sprint(t), "-profile", "mixed")
+				mu.Lock()
+				defer mu.Unlock()
+				if timed || exit != 0 {
+					a.troubleS = fmt.Sprintf("worker exited with status %d: %s", exit, tail(se, 1000))
+					return
+				}
+				for i := range lines {
+					l := &lines[i]
+					if l.Ev == "end" && l.Res != nil && l.Res.Verdict != "internal" {
+						a.outHashes[l.I] = l.Res.OutHash ^ strHash64(l.Res.Verdict)
+					}
+				}
+			}(f, t)
+		}
+		wg.Wait()
+	}
+}
+
+func (x *c12) samples(n int) []any {
+	var out []any
+	lines, _, _, _ := x.spawn(60*time.Second, "100", "-base", fmt.Sprint(x.e.seed), "-from", "0", "-to", "40", "-profile", "mixed", "-emithist")
+	for _, l := range lines {
+		if l.Ev == "end" && l.Res != nil && l.Res.Effective >= 3 && len(out) < n {
+			var h h12
+			json.Unmarshal(l.Hist, &h)
+			hb, _ := json.Marshal(h)
+			var hs any = h
+			if len(hb) > 6000 {
+				hs = head(string(hb), 6000)
+			}
+			out = append(out, map[string]any{"run_index": l.I, "run_seed": l.Seed, "profile": l.Profile, "verdict": l.Res.Verdict, "effective_edits": l.Res.Effective, "history": hs})
+		}
+	}
+	if len(out) == 0 {
+		out = append(out, "no history with >=3 effective edits among the first 40")
+	}
+	return out
+}
